@@ -273,6 +273,39 @@ func sound(c *enum.Ctx, k kase, h dp.Hit, target, work []byte, strand string) {
 	if opt := nwScore(target[h.Abpos:h.Aepos], work[h.Bbpos:h.Bepos]); h.Score > opt {
 		c.Fail("soundness/score-above-optimum", k, "%s hit %+v reports score %d, the optimal global alignment of its regions under (+1,-3,-3) scores %d", strand, h, h.Score, opt)
 	}
+	// "so the regions' edit distance is bounded by the reported error": an alignment of score S between
+	// regions of lengths a and b has at most ((a+b)/2-S)/3.5 edits, and the reported error e satisfies
+	// 4*e*b = b - S + |a-b| >= (a+b)/2 - S, hence edits <= (8/7)*e*b
+	if d, bound := editDistance(target[h.Abpos:h.Aepos], work[h.Bbpos:h.Bepos]), 8.0/7.0*h.Error*float64(h.Bepos-h.Bbpos); float64(d) > bound+1e-9 {
+		c.Fail("soundness/edit-distance-above-reported-error", k, "%s hit %+v: the regions are %d edits apart, the reported error %.4f over %d query letters allows %.2f", strand, h, d, h.Error, h.Bepos-h.Bbpos, bound)
+	}
+}
+
+// editDistance: unit-cost edit distance.
+func editDistance(a, b []byte) int {
+	prev := make([]int, len(b)+1)
+	cur := make([]int, len(b)+1)
+	for j := range prev {
+		prev[j] = j
+	}
+	for i := 1; i <= len(a); i++ {
+		cur[0] = i
+		for j := 1; j <= len(b); j++ {
+			d := prev[j-1]
+			if a[i-1] != b[j-1] {
+				d++
+			}
+			if v := prev[j] + 1; v < d {
+				d = v
+			}
+			if v := cur[j-1] + 1; v < d {
+				d = v
+			}
+			cur[j] = d
+		}
+		prev, cur = cur, prev
+	}
+	return prev[len(b)]
 }
 
 func check(c *enum.Ctx, r *runner, k kase) {
